@@ -913,7 +913,10 @@ class PersistentDict(collections.abc.MutableMapping):
 
     def reload(self):
         """Force a reload from disk, overwriting current cache"""
-        self._cache = dict(self._func.items())
+        # Update in place: the finalizer holds a reference to this very dict.
+        contents = dict(self._func.items())
+        self._cache.clear()
+        self._cache.update(contents)
 
 
 SEARCH_PATH = []
